@@ -234,3 +234,10 @@ func FilterStacks(all string) string {
 	}
 	return strings.Join(keep, "\n\n")
 }
+
+// Stacks returns the stacks of all goroutines.
+func Stacks() string {
+	buf := make([]byte, 8<<20)
+	n := runtime.Stack(buf, true)
+	return string(buf[:n])
+}
